@@ -44,14 +44,25 @@ def build(rng, tier, ctx, padding_case=False, ciphers=None, n=None, shape_case=F
         rtag = tag if serv & 2 else 0        # no authentication service: no tag (as the library's own policy helpers set it)
         p = default_policy(rng, ssrc, rtp=cp(cipher=cipher, keylen=klen, taglen=rtag, serv=serv), rtcp=cp(cipher=cipher, keylen=klen, taglen=tag, serv=serv | 2),
                            keys=keys, use_mki=use_mki, mki_size=4 if use_mki else 0, use_key_field=not use_mki, enc_xtn=ids)
-        roc = rng.choice([0, 0, 1, 3, 0x10000, 0x7fffffff])
-        seq = rng.choice([1, 2, 1000, 65535, 40000])
+        roc = [1, 0, 3, 0x10000, 0, 0x7fffffff, 1][k % 7]
+        seq = [1, 2, 1000, 65535, 40000][k % 5]
         rtcp_idx = rng.choice([1, 2, 300, 0x10000, 0x12345678])
         items = []
-        for j in range(4):
+        for j in range(5):
             ki = rng.randrange(len(keys))
             mkey, msalt = split_key(cipher, keys[ki][0])
             conf = (1 if serv & 1 else 0) | (2 if cipher == NULL_CIPHER else 0)
+            late_idx = ((roc << 16) | seq) - 2
+            if j == 3 and (late_idx < 0 or padding_case or shape_case):
+                continue
+            if j == 3:
+                # a LATE packet on the sender: the index just before the ones sent so far (never sent; when seq is 1 it lies before
+                # the sequence-number wrap, i.e. under the previous ROC): IV and authenticated ROC are those of ITS index
+                pkt = rtp_packet(ssrc, late_idx & 0xffff, payload=rand_key(rng, rng.choice([0, 16, 33])), cc=rng.choice([0, 1]))
+                r = late_idx >> 16
+                spec_lines.append(f"spec_rtp {conf} {1 if serv & 2 else 0} {H(rtag)} {H(r)} | {mkey.hex()} {msalt.hex()} {hexb(keys[ki][1])} {hexb(ids)} {pkt.hex()}")
+                items.append(("rtp", pkt, ki, r, len(spec_lines) - 1))
+                continue
             if j < 3:
                 if shape_case:
                     # RFC 6904 element shapes without inner padding (so the known finding about padding is not involved): elements
